@@ -188,9 +188,8 @@ def body(chk, db, cfgname):
         i4ket, i4bra = find("O3", "row", lh.ROWMAJOR), find("CX4", "col", lh.COLMAJOR)
         site = P + "::compute:iterators"
         if None in (i2ket, i2bra, i4ket, i4bra):
-            r3.bad(site, f.loc(), "the four-operator stripe is not walked as O1:row(1) x O2:column(3) and O3:row(3) x CX4:column(1) (row-major iterators over O1, O3; column-major over O2, CX4); found %s" % (
-                [(i["name"], i["major"], lh.short(i["matrix"])) for i in its.values()],), cfgname)
-            raise AnalysisBroken("iterators not identified")
+            raise AnalysisBroken("the four sparse iterators (O1 row, O2 column, O3 row, CX4 column) are not all declared in compute(): the walk is written in a form that is not analysed; found %s" % (
+                [(i["name"], i["major"], lh.short(i["matrix"])) for i in its.values()],))
         idx1, idx3 = i2ket["outer"], i4ket["outer"]
         if i4bra["outer"] != idx1 or i2bra["outer"] != idx3 or idx1 == idx3:
             r3.bad(site, f.loc(), "outer indices are not bound as O1(1,.), CX4(.,1), O2(.,3), O3(3,.)", cfgname)
@@ -217,8 +216,11 @@ def body(chk, db, cfgname):
             chased = any(x[0] == "true" and x[1][0] == "call" and x[1][1] == "Pomerol::chaseIndices" and {x[1][2][:2], x[1][3][:2]} == {i4ket["var"][:2], i4bra["var"][:2]} for x in fa)
             if ak not in (lh.idx(i4bra), lh.idx(i4ket)) or not chased:
                 okp = False
+        plain = all(ctx.key(f.nodes[m]["args"][0], inline=False) in (lh.idx(i4bra), lh.idx(i4ket), lh.idx(i2bra), lh.idx(i2ket)) for m in pushes)
         if okp and pushes:
             r3.ok(site, f.loc(pushes[0]), "Index4List collects the common inner index of O3's row index3 and CX4's column index1 (under a successful chase)", cfgname)
+        elif pushes and not plain:
+            raise AnalysisBroken("Index4List stores something other than a bare inner index (%s): form not analysed" % f.s(f.nodes[pushes[0]]["args"][0])[:50])
         else:
             r3.bad(site, f.loc(pushes[0]) if pushes else f.loc(), "the list of intermediate states |4> is not filled with the matched index of the (O3, CX4) iterator pair", cfgname)
         i4 = None
@@ -483,15 +485,18 @@ def body(chk, db, cfgname):
             Ls = enclosing_loops(f, wraps[0])
             shp = loop_shape(f, ctx, Ls[0]) if Ls else None
             parts_ = fld(G2 + "::parts")
-            if shp is not None and shp["kind"] == "index" and shp["start"] == ("lit", 0) and shp["bound"] == ("mcall", "std::vector::size", parts_) and not shp["exits"]:
-                i_ = shp["var"]
+            from pv.loops import covers, is_element
+            from pv.paths import every_iteration
+            if shp is not None and covers(shp, parts_) and every_iteration(f, Ls[0], wraps[0]) is not False:
                 fill = ctx.key(n["args"][4])
-                good = a[0] == ("un", "&", fr) and a[1] == ("un", "&", md) and a[2] == ("op", "[]", parts_, i_) and a[3] == clearp and \
+                good = a[0] == ("un", "&", fr) and a[1] == ("un", "&", md) and is_element(ctx.key(n["args"][2]), shp, parts_) and a[3] == clearp and \
                     fill in (("op", ">", ("mcall", "std::vector::size", fr), ("lit", 0)), ("op", "<", ("lit", 0), ("mcall", "std::vector::size", fr)), ("op", "!=", ("mcall", "std::vector::size", fr), ("lit", 0)),
                              ("un", "!", ("mcall", "std::vector::empty", fr)))
         if good:
             r5.ok(site, f.loc(), "table sized freqs.size() and zero-initialised; every part wrapped with (&freqs, &table, part, clear, fill iff freqs non-empty)", cfgname)
         else:
+            if md is None or len(wraps) != 1 or not Ls or (shp is not None and shp["kind"] == "other"):
+                raise AnalysisBroken("TwoParticleGF::compute: the set-up of the frequency table / of the per-part wrappers is written in a form that is not analysed")
             r5.bad(site, f.loc(), "the frequency table is not (sized to the list, zeroed, handed with the same list and purge flag to a wrapper of EVERY part)", cfgname)
     lh.check_sum_over_parts(r5, db, cfgname, G2 + "::operator()", 3, [r"complex"] * 3, "")
     f = db.fn(G2 + "::operator()", ptypes=[r"^long$"] * 3)
